@@ -58,7 +58,7 @@ impl Property for OptProp {
         if !case.objective.is_plain() {
             out.classes.push("obj:view".into());
         }
-        if matches!(m.vars[case.objective.var], VarDecl::Bool) {
+        if m.vars[case.objective.var].is_boolean() {
             out.classes.push("obj:literal".into());
         }
         let sols = sem::solutions(m, 5_000_000).expect("harness: enumeration limit");
@@ -119,6 +119,42 @@ impl Property for OptProp {
         if sols.is_empty() && !matches!(r, OptRes::Unsat) && !out.inconclusive {
             return Err(Failure::new("wrong:optimal-but-unsat", format!("{:?} but the model has no solution", r)));
         }
+        // A second optimisation on the same solver: linear UNSAT-SAT only adds clauses which the model
+        // implies (the refuted lower bounds), so afterwards the solver still stands for the same model and an
+        // optimisation in the opposite direction with the other procedure has to find the other extreme.
+        if !lsu && matches!(r, OptRes::Optimal(_)) && !out.inconclusive {
+            out.classes.push("second_call_after_lus".into());
+            let worst = sols.iter().map(|s| val(s)).fold(None, |acc: Option<i128>, v| Some(acc.map_or(v, |x| if better(v, x) { x } else { v })));
+            let mut br2 = b.brancher(&case.cfg.brancher);
+            let mut t2 = CountingTermination::budget(BUDGET);
+            let (r2, cbs2) = optimise(&mut b, &mut br2, &mut t2, true, !case.maximise, &case.objective);
+            for (i, a) in cbs2.iter().enumerate() {
+                if let Some(why) = sem::first_violation(m, a) {
+                    return Err(Failure::new("wrong:second-call:callback-not-a-solution", format!("callback solution #{i} {:?} of the second optimisation: {}", a, why)));
+                }
+            }
+            match &r2 {
+                OptRes::Optimal(a) => {
+                    if let Some(why) = sem::first_violation(m, a) {
+                        return Err(Failure::new("wrong:second-call:optimal-not-a-solution", format!("second optimisation Optimal({:?}): {}", a, why)));
+                    }
+                    if Some(val(a)) != worst {
+                        return Err(Failure::new(
+                            "wrong:second-call:not-optimal",
+                            format!("after a linear UNSAT-SAT run, optimising in the opposite direction (maximise: {}) returned Optimal({:?}) with objective {} but the optimum is {:?}", !case.maximise, a, val(a), worst),
+                        ));
+                    }
+                }
+                OptRes::Unsat => return Err(Failure::new("wrong:second-call:unsat-but-sat", format!("the second optimisation reports Unsatisfiable but {} solutions exist", sols.len()))),
+                OptRes::Satisfiable(_) | OptRes::Unknown => {
+                    if t2.exhausted {
+                        out.inconclusive = true;
+                    } else {
+                        return Err(Failure::new("wrong:second-call:unknown-without-stop", format!("the second optimisation returned {:?} although the termination never fired", r2)));
+                    }
+                }
+            }
+        }
         let improved = cbs.len() >= 2 || (!cbs.is_empty() && Some(val(&cbs[0])) != best);
         if improved {
             out.classes.push("opt:improved".into());
@@ -155,7 +191,7 @@ fn implied_by(m: &Model, assumptions: &[Pred], p: &Pred) -> bool {
     })
 }
 
-fn has_contradictory_pair(m: &Model, assumptions: &[Pred]) -> bool {
+pub fn has_contradictory_pair(m: &Model, assumptions: &[Pred]) -> bool {
     for (i, a) in assumptions.iter().enumerate() {
         for b in &assumptions[i + 1..] {
             if a.var == b.var {
